@@ -194,6 +194,85 @@ def unproduct(tree):
     return tree
 
 
+def inline_ref_aliases(tree):
+    """`x = E` where E is a pure REFERENCE expression -- `name[name]` or an attribute chain `name.a.b` -- bound once in its function,
+    every read of x lies in the statements that follow the binding in the same block (so in the same loop iteration), and none of those
+    statements re-binds a name of E or assigns to E itself: x is just another spelling of E there, and is replaced by it."""
+    def is_ref(e):
+        if isinstance(e, ast.Subscript):
+            return isinstance(e.value, ast.Name) and isinstance(e.slice, ast.Name)
+        n = 0
+        while isinstance(e, ast.Attribute):
+            e = e.value
+            n += 1
+        return n >= 1 and isinstance(e, ast.Name)
+
+    for fn in [x for x in ast.walk(tree) if isinstance(x, ast.FunctionDef)]:
+        params = {a.arg for a in fn.args.args}
+        stores, loads = {}, {}
+        for x in ast.walk(fn):
+            if isinstance(x, ast.Name):
+                d = stores if isinstance(x.ctx, (ast.Store, ast.Del)) else loads
+                d[x.id] = d.get(x.id, 0) + 1
+
+        def visit(block):
+            i = 0
+            while i < len(block):
+                st = block[i]
+                for sub in ('body', 'orelse', 'finalbody'):
+                    if isinstance(getattr(st, sub, None), list) and not isinstance(st, ast.FunctionDef):
+                        visit(getattr(st, sub))
+                if (isinstance(st, ast.Assign) and len(st.targets) == 1 and isinstance(st.targets[0], ast.Name) and is_ref(st.value)):
+                    x, e = st.targets[0].id, st.value
+                    rest = block[i + 1:]
+                    names = {n.id for n in ast.walk(e) if isinstance(n, ast.Name)}
+                    etxt = ast.dump(e).replace('Load()', 'CTX')
+                    n_loads_rest = sum(1 for r in rest for n in ast.walk(r) if isinstance(n, ast.Name) and n.id == x and isinstance(n.ctx, ast.Load))
+                    ok = (x not in params and x != 'self' and stores.get(x, 0) == 1 and n_loads_rest == loads.get(x, 0) and n_loads_rest > 0
+                          and x not in names)
+                    if ok:
+                        for r in rest:
+                            for n in ast.walk(r):
+                                if isinstance(n, ast.Name) and n.id in names and isinstance(n.ctx, (ast.Store, ast.Del)):
+                                    ok = False
+                                if isinstance(n, (ast.Subscript, ast.Attribute)) and isinstance(n.ctx, (ast.Store, ast.Del)) \
+                                        and ast.dump(n).replace('Store()', 'CTX').replace('Del()', 'CTX') == etxt:
+                                    ok = False
+                    if ok:
+                        class Sub(ast.NodeTransformer):
+                            def visit_Name(self, node):
+                                if node.id == x and isinstance(node.ctx, ast.Load):
+                                    return ast.copy_location(copy.deepcopy(e), node)
+                                return node
+                        for j in range(i + 1, len(block)):
+                            block[j] = Sub().visit(block[j])
+                        del block[i]
+                        ast.fix_missing_locations(fn)
+                        continue
+                i += 1
+        visit(fn.body)
+    return tree
+
+
+def unelif_raising(tree):
+    """`if c1: ...; raise  elif c2: ...` is `if c1: ...; raise` followed by `if c2: ...` (the first body never falls through)."""
+    def visit(block):
+        i = 0
+        while i < len(block):
+            st = block[i]
+            for sub in ('body', 'orelse', 'finalbody'):
+                if isinstance(getattr(st, sub, None), list) and not isinstance(st, (ast.FunctionDef, ast.ClassDef)):
+                    visit(getattr(st, sub))
+            if isinstance(st, ast.If) and st.orelse and st.body and isinstance(st.body[-1], ast.Raise):
+                tail = st.orelse
+                st.orelse = []
+                block[i + 1:i + 1] = tail
+            i += 1
+    for fn in [x for x in ast.walk(tree) if isinstance(x, ast.FunctionDef)]:
+        visit(fn.body)
+    return tree
+
+
 def normalise(tree):
     """The behaviour-preserving rewrites shared by the translators that read optimizer code (T2, its state-replay instrumentation, the
     onlooker translator, t_treepop): each maps a spelling onto the one the translators know; none changes what the code does."""
@@ -201,6 +280,7 @@ def normalise(tree):
     swaps_via_temp(tree)
     inline_len_locals(tree)
     unproduct(tree)
+    inline_ref_aliases(tree)
     return tree
 
 
